@@ -112,10 +112,16 @@ theorem pres_checkSuccess_after_send (c : Cmd) : Pres (sendSilent c : M S Unit) 
   · exact pres_throw _
 
 theorem pres_declareSort (d : SortDecl) : Pres (declareSort d : M S Unit) :=
-  pres_bind (pres_checkSuccess_after_send _) fun _ => pres_modify _ fun _ => rfl
+  pres_bind (pres_checkSuccess_after_send _) fun _ => pres_bind pres_get fun w => by
+    split
+    · exact pres_throw _
+    · exact pres_modify _ fun _ => rfl
 
 theorem pres_declareVar (s : Sym) : Pres (declareVar s : M S Unit) :=
-  pres_bind (pres_checkSuccess_after_send _) fun _ => pres_modify _ fun _ => rfl
+  pres_bind (pres_checkSuccess_after_send _) fun _ => pres_bind pres_get fun w => by
+    split
+    · exact pres_throw _
+    · exact pres_modify _ fun _ => rfl
 
 theorem pres_declareMissingSorts : ∀ ds : List SortDecl, Pres (declareMissingSorts ds : M S Unit)
   | [] => pres_pure _
@@ -141,7 +147,11 @@ theorem pres_pushBody (n : Nat) : Pres (pushBody n : M S Unit) :=
   pres_bind (pres_checkSuccess_after_send _) fun _ => pres_modify _ fun _ => rfl
 
 theorem pres_popBody (n : Nat) : Pres (popBody n : M S Unit) :=
-  pres_bind (pres_checkSuccess_after_send _) fun _ => pres_modify _ fun _ => rfl
+  pres_bind (pres_checkSuccess_after_send _) fun _ => pres_bind pres_get fun w =>
+    pres_bind (pres_modify _ fun _ => rfl) fun _ => by
+      split
+      · exact pres_pure _
+      · exact pres_throw _
 
 theorem pres_clearPendingPop : Pres (clearPendingPop : M S Unit) := by
   show Pres (M.get >>= fun w => if w.pendingPop = true then
